@@ -37,9 +37,12 @@ PROPS = {
         lean_modules=["PalomaModel.Props.C15", "PalomaModel.Props.Consts.Bridge", "PalomaModel.Props.Translated.C15"], gen=["ConstTable.lean", "Translated.lean"],
         harness_test="TestBridge", env={"VERIF_PROP": "C15"},
         n_quick=120, n_thorough=1500, thorough_seeds=8, timeout_quick=900,
-        spec_ops=["send", "cancel"],
+        extra_tests=[{"test": "TestC15Window", "dir": "C15W", "n_quick": 400, "n_thorough": 4000}],
+        spec_ops=["send", "cancel", "walk"],
         rule="same generator as C01 with tax/limit governance three times as frequent; rates rendered as fraction, decimal and exponent strings; "
-             "amounts 0..1000, 2^64..2^214 and 2^256-k; heights moved to window start+period-1/+0/+1 for all four limit periods; distinct = distinct op text; non-trivial = at least one accepted op",
+             "amounts 0..1000, 2^64..2^214 and 2^256-k; heights moved to window start+period-1/+0/+1 for all four limit periods; plus window walks (TestC15Window): a fresh token, a limit with one of the periods, "
+             "two sends a distance around the window's length apart, the length in blocks taken from the harness's own table and decided by the model's limitStep; "
+             "distinct = distinct op text; non-trivial = at least one accepted op",
         trusted_base=[SDK_TRUST, "big.Rat parsing is validated by correspondence (the model receives numerator/denominator)"],
         assumptions=["limit setting unchanged within a window for the window-total clause (governance may lower a limit below current usage)"],
     ),
